@@ -411,6 +411,9 @@ func fixedPoint(f *format, data []byte) string {
 func genC11(c *Ctx) {
 	for _, f := range formats {
 		extra := append(c.longLineInputs(f.name), c.boundaryInputs(f.name)...)
+		for _, in := range c.independentInputs(f.name) {
+			extra = append(extra, in.data, in.data) // the second copy gets mutated below
+		}
 		for i := 0; i < c.n(400)+len(extra); i++ {
 			var data []byte
 			if i < len(extra) {
